@@ -11,7 +11,7 @@ from sa.exc import CANCELLED
 from sa.flow import FnExit, Interp, TestAtom, WithEnter, call_of
 
 CLAIM = {
-    "text": "Decides plaintext confinement, flush ordering and lock separation of the TLS transports: in AsyncTLSStreamTransport the only value that ever reaches the wrapped transport's send_all / send_all_from_iterable is the whole content of the outgoing BIO (`self._write_bio.read()` with no size bound, in the same expression), the plaintext parameters and the plaintext backlog flow only into the SSL object's write, bytes read from the wrapped transport flow only into the incoming BIO, and results handed to the caller come from the SSL object; in the retry loop pending ciphertext is flushed (under nothing but `_write_bio.pending`) before the transport is read on WANT_READ, unconditionally on WANT_WRITE, and before a successful result is returned; the send and receive directions are guarded by two distinct fair locks that are never held together (a parked reader cannot block writers); on OSError / SSLError both BIOs are marked EOF before the error propagates; the blocking SSLStreamTransport never touches the raw socket after wrapping it. (drain) every send entry point that queues plaintext reaches, on every normal path to its return, the retry call that applies the write-all helper to the backlog itself, and the write-all loop can only end on an empty backlog (no break/return, the head is replaced by its unsent suffix or removed). A 0-byte read marks the incoming BIO EOF; a chunk leaves the plaintext backlog only after SSLObject.write() accepted it; on the wrapped asyncio transport the lent read buffer is withdrawn on every exit and by the delivery callback, and every record handed to transport.write() is followed - not preceded - by the awaited drain. Round 4 (C08.recv): the byte buffers of the TLS transport and of the asyncio stream protocol are allocated per instance (no memoised factory, module-level object or mutable default); the pause/resume pairing and read water marks of the asyncio stream protocol under the TLS transport are decided here as well. Round 5: the fair lock under the TLS write lock (C12.fifo); handshake / shutdown timeouts reach the TLS layer uncrossed and unduplicated; a refused send_eof() does not poison later writes (C04.once). Round 6 (finding F10, fixed): on the read paths of _retry_ssl_method (SSLWantReadError arm, after a successful SSL call) the transport send lock is awaited only under a dominating test that the write BIO holds pending output - a reader never waits behind its own side's writer; the whole iterable handed to the blocking TLS transport is written.",
+    "text": "Decides plaintext confinement, flush ordering and lock separation of the TLS transports: in AsyncTLSStreamTransport the only value that ever reaches the wrapped transport's send_all / send_all_from_iterable is the whole content of the outgoing BIO (`self._write_bio.read()` with no size bound, in the same expression), the plaintext parameters and the plaintext backlog flow only into the SSL object's write, bytes read from the wrapped transport flow only into the incoming BIO, and results handed to the caller come from the SSL object; in the retry loop pending ciphertext is flushed (under nothing but `_write_bio.pending`) before the transport is read on WANT_READ, unconditionally on WANT_WRITE, and before a successful result is returned; the send and receive directions are guarded by two distinct fair locks that are never held together (a parked reader cannot block writers); on OSError / SSLError both BIOs are marked EOF before the error propagates; the blocking SSLStreamTransport never touches the raw socket after wrapping it. (drain) every send entry point that queues plaintext reaches, on every normal path to its return, the retry call that applies the write-all helper to the backlog itself, and the write-all loop can only end on an empty backlog (no break/return, the head is replaced by its unsent suffix or removed). A 0-byte read marks the incoming BIO EOF; a chunk leaves the plaintext backlog only after SSLObject.write() accepted it; on the wrapped asyncio transport the lent read buffer is withdrawn on every exit and by the delivery callback, and every record handed to transport.write() is followed - not preceded - by the awaited drain. Round 4 (C08.recv): the byte buffers of the TLS transport and of the asyncio stream protocol are allocated per instance (no memoised factory, module-level object or mutable default); the pause/resume pairing and read water marks of the asyncio stream protocol under the TLS transport are decided here as well. Round 5: the fair lock under the TLS write lock (C12.fifo); handshake / shutdown timeouts reach the TLS layer uncrossed and unduplicated; a refused send_eof() does not poison later writes (C04.once). Round 6 (finding F10, fixed): on the read paths of _retry_ssl_method (SSLWantReadError arm, after a successful SSL call) the transport send lock is awaited only under a dominating test that the write BIO holds pending output - a reader never waits behind its own side's writer; the whole iterable handed to the blocking TLS transport is written. Round 7: the read BIO is marked as ended only in OSError handlers of blocks that read from the wrapped transport (a failed flush leaves the read direction alone).",
     "note": "Trusted: the ssl module encrypts what goes through SSLObject/MemoryBIO. Not decided: byte transparency of the decrypted stream, liveness under all fragmentations.",
     "technique": "taint (source/sink) queries and reaching-definition shape checks on the ast program database, ordering typestate by abstract interpretation, lock-held analysis",
 }
